@@ -202,33 +202,19 @@ def zone_rules(repo, rep, ctx):
 
 
 def guard_rules(repo, rep):
-    """the accepted band is exactly the one the property quantifies over: -80 <= lat <= 84, -180 <= lon <= 180"""
+    """the accepted band is exactly the one the property quantifies over: -80 <= lat <= 84, -180 <= lon <= 180, zones 0..60;
+    decided on the raising tests met during abstract evaluation (piecewise-constant predicates over the input box)"""
+    from .. import guards
     f = repo.func('geodepy.convert', 'geo2grid')
-    names = [p.name for p in f.params[:2]]
-    want = {names[0]: (-80, 84), names[1]: (-180, 180)}
-    for nm, (lo, hi) in want.items():
-        key = 'R-GUARD::geodepy/convert.py::geo2grid::%s-range' % nm
-        found = None
-        for st in f.node.body:
-            if isinstance(st, ast.If) and any(isinstance(b, ast.Raise) for b in st.body) and isinstance(st.test, ast.BoolOp) and isinstance(st.test.op, ast.Or):
-                cs = st.test.values
-                if len(cs) == 2 and all(isinstance(c, ast.Compare) and isinstance(c.left, ast.Name) and c.left.id == nm and len(c.ops) == 1 for c in cs):
-                    found = st
-        if found is None:
-            rep.undecided('R-GUARD', key, where(f, f.node), 'no range check of the form "%s < a or %s > b: raise"' % (nm, nm))
-            continue
-        vals = {}
-        for c in found.test.values:
-            try:
-                v = ast.literal_eval(c.comparators[0])
-            except Exception:
-                v = None
-            vals[type(c.ops[0]).__name__] = v
-        if vals.get('Lt') == lo and vals.get('Gt') == hi:
-            rep.holds('R-GUARD', key, where(f, found), '%s outside [%d, %d] is rejected, everything inside is accepted' % (nm, lo, hi))
-        else:
-            rep.violated('R-GUARD', key, where(f, found), 'geo2grid accepts %s in %s..%s; the projection is specified on [%d, %d]' % (nm, vals.get('Lt'), vals.get('Gt'), lo, hi),
-                         expected='%s < %d or %s > %d' % (nm, lo, nm, hi), actual=stmt_text(found.test))
+    ps = [p.name for p in f.params]
+    domain = {'lat': (-80, 84), 'lon': (-180, 180), 'zone': (0, 60)}
+    ev = Evaluator(repo, opaque={'psfandgridconv', 'alpha_coeff', 'rect_radius'})
+    ev.call_function(f, {ps[0]: Rat.sym('lat'), ps[1]: Rat.sym('lon'), ps[2]: Rat.sym('zone')})
+    n = guards.guard_rule(rep, 'R-GUARD', f, ev.raise_conds, domain, 'the band -80..84 / -180..180 / zones 0..60 the projection is specified on', lambda nd: where(f, nd), integer=('zone',))
+    guards.rejects_outside(rep, 'R-GUARD', f, ev.raise_conds, domain, {'lat': F(1, 10 ** 6), 'lon': F(1, 10 ** 6), 'zone': 1}, lambda nd: where(f, nd),
+                           'the band the projection is specified on')
+    if n < 3:
+        rep.undecided('R-GUARD', 'R-GUARD::geodepy/convert.py::geo2grid::tests', where(f, f.node), 'fewer than three raising input tests were met (%d)' % n)
 
 
 def units_rules(repo, rep):
@@ -240,6 +226,7 @@ def units_rules(repo, rep):
 
 def run(repo, rep):
     alg.reset()
+    common.ellipsoid_rules(repo, rep, projections=True)
     rep.trust('sv/alg.py exact normal forms; generators (free symbols, sqrt/atan/log/... atoms with different arguments) are algebraically independent modulo the rewrite rules applied')
     rep.trust('reference formulas: Karney (2011) / Deakin "Karney-Krueger equations"; Krueger alpha table to n^8')
     rep.assume('float(x) == x, round(x, d) treated as identity with granularity 10^-d, angular_typecheck(x) == x in degrees')
@@ -257,6 +244,9 @@ def run(repo, rep):
     # calls to the coefficient helpers must receive the own ellipsoid (psfandgridconv is C10's business)
     tr2 = ThreadRule(repo, _Filter(rep, lambda key: 'psfandgridconv' not in key))
     tr2.check_function(f)
+    # the object wrappers named in the property's observe_at list hand their ellipsoid and projection on
+    for q in ('CoordGeo.tm', 'CoordCart.tm'):
+        tr.check_function(repo.func('geodepy.coord', q), roles=('ellipsoid', 'prj'))
 
 
 class _Filter(object):
